@@ -1,10 +1,12 @@
 (* C13 over the OLDER shipped universes (configs/old_dimensions/daf_butler_universe0..7.yaml, regenerated into
-   Gen/Universes.v): the computed facts the generic theorems need.  Universes 2..5 here (11 non-skypix dimensions,
-   2^11 groups each), universes 6 and 7 (13 dimensions) in DataIdProofsOldB/C.v -- one sweep per file keeps every file
-   far below the 120 s limit. *)
+   Gen/Universes.v): the computed facts the generic theorems need.  As MODEL universes (names, kinds, required / implied
+   dimensions, always_join, populated_by, topology) several shipped universes coincide today: 3 = 2, 5 = 4, 6 = 7 = current
+   (they differ in record fields only).  Each sweep below first tries that equality (a syntactic comparison) and only
+   when the regenerated universes no longer coincide falls back to sweeping all 2^n groups (11 dimensions here, 13 in
+   DataIdProofsOldB/C.v -- one universe per file keeps every file below the 120 s limit even then). *)
 From Coq Require Import String List Bool Arith ZArith.
 From V Require Import Model.Universe Model.Group Model.DataId Model.DataIdCheck Gen.Universes
-  Proofs.GroupProofs Proofs.DataIdProofsExpand Proofs.DataIdProofsX.
+  Proofs.GroupProofs Proofs.GroupProofsShipped Proofs.DataIdProofsExpand Proofs.DataIdProofsX.
 Import ListNotations.
 Open Scope string_scope.
 Open Scope list_scope.
@@ -38,7 +40,15 @@ Proof. repeat split; vm_compute; reflexivity. Qed.
 Lemma bound_old_p : forallb (fun u => Nat.leb (length (nonskypix_dimension_names u)) 13) shipped_universes = true.
 Proof. vm_compute. reflexivity. Qed.
 
+Lemma lookup_sweep_current : lookup_sweep u_current = true.
+Proof. exact lookup_ok_current_p. Qed.
+
+Lemma sweep_transfer (u v : universe) : u = v -> lookup_sweep v = true -> lookup_sweep u = true.
+Proof. intros ->. auto. Qed.
+
 Lemma lookup_sweep_old2 : lookup_sweep u_old2 = true. Proof. vm_cast_no_check (eq_refl true). Qed.
-Lemma lookup_sweep_old3 : lookup_sweep u_old3 = true. Proof. vm_cast_no_check (eq_refl true). Qed.
+Lemma lookup_sweep_old3 : lookup_sweep u_old3 = true.
+Proof. first [ exact (sweep_transfer u_old3 u_old2 eq_refl lookup_sweep_old2) | vm_cast_no_check (eq_refl true) ]. Qed.
 Lemma lookup_sweep_old4 : lookup_sweep u_old4 = true. Proof. vm_cast_no_check (eq_refl true). Qed.
-Lemma lookup_sweep_old5 : lookup_sweep u_old5 = true. Proof. vm_cast_no_check (eq_refl true). Qed.
+Lemma lookup_sweep_old5 : lookup_sweep u_old5 = true.
+Proof. first [ exact (sweep_transfer u_old5 u_old4 eq_refl lookup_sweep_old4) | vm_cast_no_check (eq_refl true) ]. Qed.
